@@ -520,6 +520,14 @@ def stepBatch (st : State) (toks : List String) : State × String :=
       (st, (if s.panicked then "panic " else "") ++ "sent=" ++ String.intercalate "," (s.sent.map fun o =>
         match o with | .value (some k) => "v:" ++ Hex.encode k | .value none => "nf" | .failed => "fail"))
     | _, _ => (st, "bad-op")
+  | "rs.run" :: _ =>
+    -- a range scan completes whatever fails: the result channel is closed; an error of any shard is reported
+    let shards := (get "shards").splitOn ";"
+    let single := get "single" == "1"
+    let used := if single then shards.take 1 else shards
+    let bad := used.any fun s => s == "e" || (s.splitOn "+").contains "x"
+    let n := (used.map fun s => if s == "" || s == "_" then 0 else (s.splitOn "+").length).sum
+    (st, if bad then "closed=true err=true" else "closed=true err=false n=" ++ toString n)
   | "ws.run" :: _ =>
     let toks : List Batch.WTok := ((get "script").splitOn ",").filterMap fun t =>
       if t == "r" then some .resp else if t == "x" then some .brk
@@ -867,7 +875,7 @@ def step (st : State) (line : String) : State × String :=
     else if t.startsWith "c." then stepCluster st toks
     else if t.startsWith "s." then stepSess st toks
     else if t.startsWith "q." || t.startsWith "lc." then stepAck st toks
-    else if t.startsWith "b." || t.startsWith "wb." || t.startsWith "rb." || t.startsWith "mg." || t.startsWith "km." || t.startsWith "ws." then stepBatch st toks
+    else if t.startsWith "b." || t.startsWith "wb." || t.startsWith "rb." || t.startsWith "mg." || t.startsWith "km." || t.startsWith "ws." || t.startsWith "rs." then stepBatch st toks
     else (st, "bad-op")
 
 end Oxia.Driver
